@@ -245,7 +245,7 @@ impl Engine for OsetEngine {
         "oset"
     }
     fn total_cases(&self, _prop: &str, tier: Tier) -> u64 {
-        tier.pick(1_500, 60_000)
+        tier.pick(1_500, 600_000)
     }
     fn run_case(&self, w: &mut Worker, idx: u64) {
         for sub in 0..BATCH {
